@@ -30,6 +30,18 @@ Clauses and how they are decided
                 the neighbours' tails amplified 1.5x) are tagged and only the centre of mass is decided; the same
                 tag is used for m(RQ)fit.  Additional small peaks elsewhere are accepted (ringing is not excluded
                 by the statement).  Every peak returned by get_peaks() must be a local maximum of get_drt_data().
+    peak area   integral of gamma over ln(tau) inside +-0.75 decade of tau_k vs the exact distribution's mass there (R_k
+                for an RC; closed-form windowed integral for an RQ plus the tails of the other RQ elements), decided
+                per run (PEAK_MASS_TOL) when the reported lambda is <= PEAK_MASS_LAMBDA_MAX, and per cell in finalize
+                (fraction of peaks more than 15 % off; observed < 0.5 % on the unchanged tree).
+    non-uniform grids (own cells tr-nnls/<mode>/<lambda>@mixed|jitter|masked, own frozen tolerances, no twins):
+                the same clauses on log-frequency grids that are NOT evenly spaced - 2-3 whole-decade sub-ranges of
+                alternating 5..7 / 14..20 points per decade; uniform grids with every interior point jittered by
+                +-0.25 step; uniform 10..20 ppd grids in which, inside 1-2 sub-ranges, only every 2nd/3rd point is
+                kept and isolated points are dropped elsewhere, the dropped points staying in the DataSet with
+                impedance 1e30(1-j) and being excluded through DataSet.set_mask (they must not take part).  Local
+                density stays within 5..20 ppd; grid-step tolerances use the LOCAL spacing around tau_k.  Quadrature
+                weights that assume an even spacing mis-scale every peak by (assumed step / local step).
     scaling     Z*a => gamma*a, tau unchanged; f*b => tau/b, gamma unchanged.  Every twin must satisfy the SAME
                 absolute clauses against the scaled ladder (area = a*R_pol, peaks at tau_k/b); the tau grids must
                 agree (rel SCALE_FIXED_REL).  Fixed lambda: in addition the whole gamma arrays are compared.
@@ -43,7 +55,8 @@ Clauses and how they are decided
     a non-finite pole (tau = inf, gamma = -inf) has its own key C13/lm/<order>/nonfinite-pole.
     "Exactly" is decided up to floating-point conditioning of the Loewner pencil: measured worst error 1e-12 at
     4 decades, 1e-6 at 9, 7e-5 at 10, 2e-2 at 12 - hence the window bound in the generator.
-    scaling as above on the matched poles.  Ladders WITH series resistance are run too, but only counted (the
+    scaling as above on the matched poles.  A quarter of the ladders use a jittered log grid with ~8 % of the points
+    poisoned and masked out via DataSet.set_mask (same cells, same tolerances).  Ladders WITH series resistance are run too, but only counted (the
     statement is silent about them).
   m(RQ)fit (synthetic `fit=` object, so no optimiser noise enters; a few real fits in addition):
     per element: calculate_drt on the one-element circuit R0-(R_k X_k) over the same frequencies integrates to R_k;
@@ -53,6 +66,8 @@ Clauses and how they are decided
     Reference for the area is the closed-form integral of the documented (RQ) distribution over the RETURNED tau
     window (equals R_k up to the tail outside the window; the raw deviation from R_k is reported as well).
     scaling: (R*a, Y/a) => gamma*a; (f*b, Y/b^n) => tau/b, gamma unchanged (rel MRQ_SCALE_REL).
+    masked end points: the same circuit on a spectrum whose first and last point are poisoned and masked - the returned
+    window must be that of the unmasked points and the area clause must hold on it.
     real fit (no `fit=`): the distribution must integrate to the resistances of the circuit the RESULT carries.
 
 Latitude: extra small peaks; extra zero-weight Loewner poles; which automatic lambda is chosen; TR-NNLS runs that
@@ -73,7 +88,8 @@ RULE = (
     "tau_k >= 1.5 decades inside the tau window of the frequency grid and >= 1.5 decades from its neighbours, window 4..12 "
     "whole decades, 5..20 points per decade, resistance scale 10^U(-2,2) with elements within one decade, series resistance "
     "present or absent; spectrum from the harness's own model.  Cells: tr-nnls {real, imaginary} x {fixed lambda in "
-    "[1e-4,1e-2], suggested, L-curve} each with a Z-scaled and an f-scaled twin; lm {automatic, explicit order} on RC ladders "
+    "[1e-4,1e-2], suggested, L-curve} each with a Z-scaled and an f-scaled twin, and the same 6 cells without twins on non-uniform log-frequency grids "
+    "(mixed density, jittered spacing, points masked through DataSet.set_mask with poisoned values); lm {automatic, explicit order} on RC ladders "
     "without R0 in windows <= 9 decades (<= 130 points) plus scaled twins; mrq-fit with a synthetic fit object (whole circuit, each one-element circuit, scaled "
     "twins) and a few real fits.  A case is non-trivial when calculate_drt returned and at least one clause was compared; "
     "distinct = distinct (method cell, element kinds, ppd, decades, rounded log10 tau_k, rounded log10 R_k)."
@@ -92,6 +108,12 @@ MIN_EVALS = 200
 AREA_TOL = 0.30            # tr-nnls: |area/R_pol - 1|, per run (method-accuracy bound)
 AREA_FRAC_2PCT = 0.35      # per cell: allowed fraction of runs with |area/R_pol - 1| > 2 %  (observed <= 0.09)
 AREA_FRAC_5PCT = 0.15      # per cell: allowed fraction of runs with |area/R_pol - 1| > 5 %  (observed <= 0.023)
+AREA_TOL_NU = 0.30         # tr-nnls on non-uniform / masked grids (cells tr-nnls/<mode>/<lambda>@<grid kind>)
+PEAK_MASS_TOL = {"rc": 0.35, "rq": 0.60}     # tr-nnls: per-peak area (mass within +-0.75 decade of tau_k) vs exact distribution, per run
+PEAK_MASS_TOL_NU = {"rc": 0.35, "rq": 0.60}  # same on non-uniform / masked grids (observed there: rc 0.114, rq 0.20; uniform: 0.154 / 0.31)
+PEAK_MASS_FRAC_15PCT = 0.05     # per uniform cell (>= 100 peaks): allowed fraction of per-peak areas more than 15 % off (observed <= 0.003)
+PEAK_MASS_FRAC_15PCT_NU = 0.15  # per non-uniform cell (>= 20 peaks): same (observed <= 0.004 on 1440 ladders)
+PEAK_MASS_LAMBDA_MAX = 1e-2  # per-peak area is decided when the reported lambda is <= this (larger lambda smears mass across the window edge)
 PEAK_STEPS_RC = 4.0        # tr-nnls: RC element, nearest returned peak, in grid steps ...
 PEAK_DEC_RC = 0.30         # ... or within this many decades, whichever is larger
 PEAK_DEC_RQ = 0.75         # tr-nnls: RQ element, nearest returned peak, in decades
@@ -247,10 +269,84 @@ def gen_ladder(rng, tier, kinds=None, nel=None, max_decades=12, r0=None):
 
 
 def grid(lad):
-    """Frequencies (descending) whose tau = 1/(2 pi f) grid is log-uniform with ppd points per decade."""
-    n = lad["decades"] * lad["ppd"] + 1
-    lt = lad["lt_min"] + np.arange(n) / float(lad["ppd"])
+    """Frequencies (descending).  Default: tau = 1/(2 pi f) log-uniform with ppd points per decade; ladders that carry an
+    explicit "lt" list (log10 tau of every point, ascending) use that (non-uniform grids)."""
+    if "lt" in lad:
+        lt = np.array(lad["lt"], dtype=float)
+    else:
+        n = lad["decades"] * lad["ppd"] + 1
+        lt = lad["lt_min"] + np.arange(n) / float(lad["ppd"])
     return 1.0 / (2.0 * np.pi * 10.0**lt)
+
+
+NU_KINDS = ("mixed", "jitter", "masked")
+
+
+def add_nonuniform_grid(rng, lad, gk):
+    """Give the ladder a NON-uniform log-frequency grid (same window [lt_min, lt_min+decades], local density kept within
+    the property's 5..20 points per decade, window end points kept):
+      mixed   2-3 sub-ranges of whole decades with alternating low (5..7 ppd) / high (14..20 ppd) density
+      jitter  uniform 7..20 ppd, every interior point moved by U(-0.25, 0.25) steps
+      masked  uniform 10..20 ppd; in 1-2 whole-decade sub-ranges only every 2nd/3rd point is kept (>= 5 ppd remain), plus
+              isolated single points elsewhere; the dropped points stay in the DataSet with absurd impedances and are
+              excluded through DataSet.set_mask - they must not take part."""
+    D = lad["decades"]
+    lo = lad["lt_min"]
+    nseg = int(rng.integers(2, 4)) if D >= 3 else 2
+    cuts = sorted(int(c) for c in rng.choice(np.arange(1, D), size=min(nseg - 1, D - 1), replace=False))
+    bounds = [0] + cuts + [D]
+    lad["grid_kind"] = gk
+    if gk == "mixed":
+        hi_first = bool(rng.random() < 0.5)
+        lt = [lo]
+        dens = []
+        for k in range(len(bounds) - 1):
+            hi = (k % 2 == 0) == hi_first
+            ppd = int(rng.integers(14, 21)) if hi else int(rng.integers(5, 8))
+            dens.append(ppd)
+            n = (bounds[k + 1] - bounds[k]) * ppd
+            lt.extend(lo + bounds[k] + (np.arange(1, n + 1) / float(ppd)))
+        lad["lt"] = [float(x) for x in lt]
+        lad["densities"] = dens
+        lad["ppd"] = min(dens)
+    elif gk == "jitter":
+        ppd = int(rng.integers(7, 21))
+        n = D * ppd + 1
+        lt = lo + np.arange(n) / float(ppd)
+        lt[1:-1] += rng.uniform(-0.25, 0.25, size=n - 2) / ppd
+        lad["lt"] = [float(x) for x in lt]
+        lad["ppd"] = ppd
+    elif gk == "masked":
+        ppd = int(rng.integers(10, 21))
+        n = D * ppd + 1
+        lt = lo + np.arange(n) / float(ppd)
+        keep = np.ones(n, dtype=bool)
+        segs = [k for k in range(len(bounds) - 1)]
+        thin = [int(x) for x in rng.choice(segs, size=int(rng.integers(1, min(2, len(segs) - 1) + 1)), replace=False)]
+        m = 3 if ppd >= 15 and rng.random() < 0.6 else 2
+        for k in thin:
+            i0, i1 = bounds[k] * ppd, bounds[k + 1] * ppd
+            for i in range(i0 + 1, i1):
+                if (i - i0) % m != 0:
+                    keep[i] = False
+        for i in range(2, n - 2):  # isolated single points elsewhere
+            if keep[i - 1] and keep[i] and keep[i + 1] and keep[i - 2] and keep[i + 2] and rng.random() < 0.08:
+                keep[i] = False
+        keep[0] = keep[-1] = True
+        lad["lt"] = [float(x) for x in lt]
+        lad["mask"] = [int(i) for i in np.nonzero(~keep)[0]]
+        lad["ppd"] = ppd
+        lad["thinning"] = m
+    else:
+        raise ValueError(gk)
+    return lad
+
+
+def used_points(lad):
+    """Indices of the points that take part (not masked)."""
+    n = len(lad["lt"]) if "lt" in lad else lad["decades"] * lad["ppd"] + 1
+    drop = set(lad.get("mask", []))
+    return np.array([i for i in range(n) if i not in drop], dtype=int)
 
 
 NNLS_CELLS = [(m, lk) for m in ("real", "imaginary") for lk in ("fixed", "suggested", "lcurve")]
@@ -259,6 +355,7 @@ NNLS_CELLS = [(m, lk) for m in ("real", "imaginary") for lk in ("fixed", "sugges
 def gen_cases(tier, seed):
     q = tier == "quick"
     n_nnls, n_lm, n_mrq, n_fit = (256, 64, 96, 2) if q else (1800, 480, 1200, 32)
+    n_nu = 60 if q else 480
     cases = []
     i = 0
     for _ in range(n_nnls):
@@ -274,6 +371,14 @@ def gen_cases(tier, seed):
         while lad["decades"] * lad["ppd"] > 130:
             lad["ppd"] -= 1
         lad["R0_info"] = float(lad["els"][0][0] * 10.0 ** rng.uniform(-1.0, 1.0))
+        if j % 4 == 2:
+            # same ladder on a jittered log grid with a few points masked out through DataSet.set_mask (poisoned values)
+            n = lad["decades"] * lad["ppd"] + 1
+            lt = lad["lt_min"] + np.arange(n) / float(lad["ppd"])
+            lt[1:-1] += rng.uniform(-0.25, 0.25, size=n - 2) / lad["ppd"]
+            lad["lt"] = [float(x) for x in lt]
+            lad["mask"] = sorted(int(x) for x in rng.choice(np.arange(1, n - 1), size=max(1, n // 12), replace=False))
+            lad["grid_kind"] = "jitter+masked"
         cases.append({"kind": "lm", "lad": lad, "cells": ["auto", "explicit"], "with_r0": bool(j % 4 == 0)})
         i += 1
     for j in range(n_mrq):
@@ -298,6 +403,13 @@ def gen_cases(tier, seed):
             batch.append(lad)
         cases.append({"kind": "mrq", "lads": batch})
         i += 1
+    for j in range(n_nu):
+        # TR-NNLS on non-uniform / masked grids (own cells, own frozen tolerances; no scaling twins)
+        rng = np.random.default_rng([int(seed), 100000 + j, 5])
+        lad = gen_ladder(rng, tier)
+        lad["lam"] = float(10.0 ** rng.uniform(-4.0, -2.0))
+        add_nonuniform_grid(rng, lad, NU_KINDS[j % 3])
+        cases.append({"kind": "nnls", "lad": lad, "cells": [list(c) for c in NNLS_CELLS]})
     for j in range(n_fit):
         rng = np.random.default_rng([int(seed), i, 4])
         lad = gen_ladder(rng, tier, nel=int(rng.integers(1, 3)), max_decades=8)
@@ -343,7 +455,7 @@ class Acc:
 def _lad_key(cell, lad):
     return (cell, tuple("C" if e[2] == 1.0 else "Q" for e in lad["els"]), lad["ppd"], lad["decades"],
             tuple(round(math.log10(e[1]), 2) for e in lad["els"]), tuple(round(math.log10(e[0]), 2) for e in lad["els"]),
-            round(lad["R0"], 6) > 0)
+            round(lad["R0"], 6) > 0, lad.get("grid_kind", "uniform"), len(lad.get("mask", [])))
 
 
 def _call(method, ds, **kw):
@@ -389,6 +501,20 @@ def _dataset(f, Z):
     return DataSet(np.array(f, dtype=float), np.array(Z, dtype=complex))
 
 
+def _masked_dataset(f_all, Z_all, drop):
+    """DataSet over ALL points in which the points `drop` carry absurd impedances and are excluded via DataSet.set_mask."""
+    Zp = np.array(Z_all, dtype=complex)
+    if len(drop):
+        Zp[list(drop)] = 1e30 * (1.0 - 1.0j)
+    ds = _dataset(f_all, Zp)
+    if len(drop):
+        ds.set_mask({int(i): True for i in drop})
+        keep = np.array([i for i in range(len(f_all)) if i not in set(drop)], dtype=int)
+        if ds.get_num_points() != len(keep) or not np.array_equal(ds.get_frequencies(), np.asarray(f_all)[keep]):
+            raise RuntimeError("harness: mask did not select the intended points")
+    return ds
+
+
 # ------------------------------------------------------------------------------------------------
 # TR-NNLS
 # ------------------------------------------------------------------------------------------------
@@ -415,6 +541,27 @@ def _nnls_matched(lad, tau, g, pt, pg):
     return out
 
 
+def _local_step(ltau, l0, default):
+    """Largest spacing (decades) of the returned grid within +-0.3 decade of l0 (= 1/ppd on a uniform grid)."""
+    d = np.diff(ltau)
+    m = (ltau[1:] >= l0 - 0.3) & (ltau[:-1] <= l0 + 0.3)
+    return float(d[m].max()) if np.any(m) else default
+
+
+def peak_mass_reference(els, k):
+    """Mass of the EXACT distribution inside +-0.75 decade of tau_k: R_k for an RC (delta peak), windowed closed form for
+    an RQ, plus the tails of the other RQ elements inside that window (other RC deltas are >= 1.5 decades away)."""
+    l0 = math.log10(els[k][1])
+    t_lo, t_hi = 10.0 ** (l0 - 0.75), 10.0 ** (l0 + 0.75)
+    ref = 0.0
+    for j, (R, t0, n) in enumerate(els):
+        if n == 1.0:
+            ref += R if j == k else 0.0
+        else:
+            ref += rq_window_integral(R, t0, n, t_lo, t_hi)
+    return ref
+
+
 def _check_nnls_result(acc, cell, tag, rep, lad, f, r):
     """Absolute clauses (non-negativity, area, peaks) for one TR-NNLS result against the ladder that generated its data.
 
@@ -426,7 +573,8 @@ def _check_nnls_result(acc, cell, tag, rep, lad, f, r):
     Rsum = sum(e[0] for e in lad["els"])
     Rwin = float(Z[-1].real - Z[0].real)
     all_rc = all(e[2] == 1.0 for e in lad["els"])
-    step = 1.0 / lad["ppd"]
+    nu = "lt" in lad  # non-uniform / masked grid: own cell (name carries @<grid kind>), own tolerances
+    area_tol = AREA_TOL_NU if nu else AREA_TOL
     lam = float(r.lambda_value)
     tau, g = r.get_drt_data()
     tau = np.asarray(tau, dtype=float)
@@ -456,7 +604,7 @@ def _check_nnls_result(acc, cell, tag, rep, lad, f, r):
     for thr in (0.01, 0.02, 0.05, 0.10):
         if dev > thr:
             acc.stat(cell + f"/area-dev>{thr}")
-    if not dev <= AREA_TOL or (all_rc and not abs(area / Rsum - 1.0) <= AREA_TOL):
+    if not dev <= area_tol or (all_rc and not abs(area / Rsum - 1.0) <= area_tol):
         acc.bad(vkey + "area", f"integral of gamma over ln(tau) = {area:.6g}, polarisation resistance {Rwin:.6g} (sum R_k {Rsum:.6g}); "
                 f"lambda={lam!r} ppd={lad['ppd']}", rep)
     if not tag:
@@ -473,7 +621,27 @@ def _check_nnls_result(acc, cell, tag, rep, lad, f, r):
         acc.bad(vkey + "peak-not-a-maximum", msg, rep)
     matched = _nnls_matched(lad, tau, g, pt, pg)
     resolved = rq_resolved(lad["els"])
-    for (R, t0, n), (d, tp, cen), res_k in zip(lad["els"], matched, resolved):
+    ltau = np.log10(tau)
+    wts = np.gradient(np.log(tau))  # central differences = trapezoid weights of interior points, also on non-uniform grids
+    for k, ((R, t0, n), (d, tp, cen), res_k) in enumerate(zip(lad["els"], matched, resolved)):
+        step = _local_step(ltau, math.log10(t0), 1.0 / lad["ppd"]) if nu else 1.0 / lad["ppd"]
+        # per-peak area: mass of the returned distribution inside +-0.75 decade of tau_k vs the exact distribution's
+        inw = np.abs(ltau - math.log10(t0)) <= 0.75
+        mass = float(np.sum(g[inw] * wts[inw]))
+        mdev = abs(mass / peak_mass_reference(lad["els"], k) - 1.0)
+        kd = "rc" if n == 1.0 else "rq"
+        if lam <= PEAK_MASS_LAMBDA_MAX:
+            acc.stat(cell + "/peak-area-checked")
+            acc.obs(cell + f"/peak_area_dev[{kd}]" + sfx, mdev)
+            for thr in (0.05, 0.10, 0.15):
+                if mdev > thr:
+                    acc.stat(cell + f"/peak-area-dev>{thr}")
+            if not mdev <= (PEAK_MASS_TOL_NU if nu else PEAK_MASS_TOL)[kd]:
+                acc.bad(vkey + "peak-area", f"element R={R:.6g} tau={t0:.6g} n={n:.3f}: integral of gamma over +-0.75 decade around tau_k = {mass:.6g}, "
+                        f"exact distribution has {peak_mass_reference(lad['els'], k):.6g} there (lambda {lam!r}, local step {step:.3f} decade)", rep)
+        else:
+            acc.stat(cell + "/peak-area-not-decided[lambda>%g]" % PEAK_MASS_LAMBDA_MAX)
+            acc.obs(cell + f"/peak_area_dev[{kd},lambda>%g,info]" % PEAK_MASS_LAMBDA_MAX, mdev)
         if n == 1.0:
             acc.stat(cell + "/peak-checked[rc]")
             acc.obs(cell + "/peak_dev_steps[rc]" + sfx, d / step)
@@ -481,7 +649,7 @@ def _check_nnls_result(acc, cell, tag, rep, lad, f, r):
             acc.obs(cell + "/centroid_dev_decades[rc,info]", cen)
             if not (d / step <= PEAK_STEPS_RC or d <= PEAK_DEC_RC):
                 acc.bad(vkey + "peak-position", f"RC element tau={t0:.6g}: nearest returned peak at {tp:.6g} = {d / step:.2f} grid steps away "
-                        f"(ppd {lad['ppd']}, lambda {lam!r})", rep)
+                        f"(local step {step:.3f} decade, lambda {lam!r})", rep)
         else:
             acc.stat(cell + "/centroid-checked[rq]")
             acc.obs(cell + "/centroid_dev_decades[rq]" + sfx, cen)
@@ -511,14 +679,22 @@ def _scaled_ladder(lad, a, b):
 
 def run_nnls(case, acc):
     lad = case["lad"]
-    f = grid(lad)
-    Z = ladder_Z(f, lad["R0"], lad["els"])
+    f_all = grid(lad)
+    Z_all = ladder_Z(f_all, lad["R0"], lad["els"])
     a, b = lad["a"], lad["b"]
-    ds0 = _dataset(f, Z)
-    dsa = _dataset(f, Z * a)
-    dsb = _dataset(f * b, Z)
+    gk = lad.get("grid_kind")
+    use = used_points(lad)
+    f, Z = f_all[use], Z_all[use]
+    if lad.get("mask"):
+        # masked points carry absurd impedances and are excluded through the public mask API
+        ds0 = _masked_dataset(f_all, Z_all, lad["mask"])
+        acc.stat("masked-datasets")
+    else:
+        ds0 = _dataset(f, Z)
+    dsa = None if gk else _dataset(f, Z * a)
+    dsb = None if gk else _dataset(f * b, Z)
     for mode, lk in case["cells"]:
-        cell = f"tr-nnls/{mode}/{lk}"
+        cell = f"tr-nnls/{mode}/{lk}" + (f"@{gk}" if gk else "")
         rep = {"kind": "nnls", "lad": lad, "cells": [[mode, lk]]}
         kw = dict(mode=mode, lambda_value=_lam_arg(lad, lk), max_iter=MAX_ITER)
         r, e = _call("tr-nnls", ds0, **kw)
@@ -534,8 +710,10 @@ def run_nnls(case, acc):
         if res is None:
             continue
         tau, g = res
-        # scaling twins
+        # scaling twins (uniform grids only; the non-uniform cells decide the absolute clauses)
         for which, ds, fa, fb in (("scale-Z", dsa, a, 1.0), ("scale-f", dsb, 1.0, b)):
+            if ds is None:
+                continue
             r2, e2 = _call("tr-nnls", ds, **kw)
             acc.stat(cell + f"/{which}-runs")
             if e2 is not None:
@@ -593,6 +771,9 @@ def run_lm(case, acc):
     Z = ladder_Z(f, 0.0, els)
     a, b = lad["a"], lad["b"]
     Rmax = max(e[0] for e in els)
+    drop = lad.get("mask", [])  # jittered grid with masked (poisoned) points: same clauses, same cells
+    if "lt" in lad:
+        acc.stat("lm/nonuniform-masked-ladders")
     for oc in case["cells"]:
         cell = f"lm/{oc}"
         rep = {"kind": "lm", "lad": lad, "cells": [oc], "with_r0": False}
@@ -601,7 +782,7 @@ def run_lm(case, acc):
             kw["model_order"] = len(els)
         base = None
         for which, fa, fb in (("base", 1.0, 1.0), ("scale-Z", a, 1.0), ("scale-f", 1.0, b)):
-            r, e = _call("lm", _dataset(f * fb, Z * fa), **kw)
+            r, e = _call("lm", _masked_dataset(f * fb, Z * fa, drop), **kw)
             acc.stat(cell + f"/{which}-runs")
             if e is not None:
                 acc.bad(_exc_key(f"C13/{cell}", e), f"calculate_drt(method='lm') raised ({which}, a={fa!r}, b={fb!r}): {monitors.tb_tail(e)}", rep)
@@ -739,6 +920,25 @@ def run_mrq_one(lad, acc):
     if not (abs(tau[0] / t_lo - 1.0) <= 1e-6 and abs(tau[-1] / t_hi - 1.0) <= 1e-6):
         acc.bad(f"C13/{cell}/tau-grid", f"returned tau window [{tau[0]!r}, {tau[-1]!r}] is not the measured window [{t_lo!r}, {t_hi!r}]", rep)
         return
+    # masked end points (poisoned, excluded via DataSet.set_mask) must not take part: the window is that of the unmasked points
+    fit_m = types.SimpleNamespace(circuit=build_circuit(R0, els), residuals=np.zeros(len(f) - 2, dtype=complex))
+    rm, em = _call("mrq-fit", _masked_dataset(f, Z, [0, len(f) - 1]), circuit=fit_m.circuit, fit=fit_m, gaussian_width=float(W),
+                   num_per_decade=int(npd), num_procs=1)
+    acc.stat(cell + "/masked-ends-runs")
+    if em is not None:
+        acc.bad(_exc_key(f"C13/{cell}/masked-ends", em), f"calculate_drt(method='mrq-fit') on a spectrum with masked end points raised: {monitors.tb_tail(em)}", rep)
+    else:
+        tm, gm = (np.asarray(x, dtype=float) for x in rm.get_drt_data())
+        lo_m, hi_m = 1.0 / (2 * np.pi * f[1]), 1.0 / (2 * np.pi * f[-2])
+        acc.evals += 1
+        dev_w = max(abs(tm[0] / lo_m - 1.0), abs(tm[-1] / hi_m - 1.0)) if len(tm) > 1 else float("inf")
+        acc.obs(cell + "/masked-ends/window_rel", dev_w)
+        dev_a = abs(float(np.trapezoid(gm, np.log(tm))) / _mrq_ref(els, W, tm) - 1.0) if dev_w <= 1e-6 else float("inf")
+        acc.obs(cell + "/masked-ends/total_area_vs_windowed_ref", dev_a)
+        acc.stat(cell + "/masked-ends-checked")
+        if not dev_w <= 1e-6 or not dev_a <= MRQ_AREA_TOL:
+            acc.bad(f"C13/{cell}/masked-ends", f"end points masked: returned window [{tm[0]!r}, {tm[-1]!r}] vs unmasked window [{lo_m!r}, {hi_m!r}], "
+                    f"area deviation {dev_a:.3g}", rep)
     area = float(np.trapezoid(g, np.log(tau)))
     ref = _mrq_ref(els, W, tau)
     Rsum = sum(x[0] for x in els)
@@ -871,6 +1071,9 @@ def run_case(case):
         lad = case["lad"]
         sample = {"kind": k, "elements(R,tau,n)": lad["els"], "R0": lad["R0"], "ppd": lad["ppd"], "decades": lad["decades"],
                   "log10_tau_min": lad["lt_min"], "lambda_fixed": lad["lam"], "a": lad["a"], "b": lad["b"]}
+        if "grid_kind" in lad:
+            sample.update({"grid": lad["grid_kind"], "points": len(lad["lt"]), "masked_points": len(lad.get("mask", [])),
+                           "densities": lad.get("densities"), "thinning": lad.get("thinning")})
     elif k == "lm":
         run_lm(case, acc)
         lad = case["lad"]
@@ -919,7 +1122,30 @@ def finalize(agg):
                              "msg": f"{cell}: {f2:.1%} of {n} runs have an area more than 2 % off the polarisation resistance (allowed {AREA_FRAC_2PCT:.0%}), "
                                     f"{f5:.1%} more than 5 % off (allowed {AREA_FRAC_5PCT:.0%})",
                              "witness": {"cell": cell, "runs": n, "frac_gt_2pct": f2, "frac_gt_5pct": f5}})
+    # aggregate per-peak-area clause (same idea): a quadrature-weight error on non-uniform grids mis-scales each peak by
+    # (assumed step / local step) - tens of percent on mixed-density and masked grids - while the unchanged tree has
+    # < 0.5 % of its peaks more than 15 % off in every cell.
+    peak_area_info = {}
+    for cell in sorted({k[: -len("/peak-area-checked")] for k in st if k.endswith("/peak-area-checked")}):
+        n = st.get(cell + "/peak-area-checked", 0)
+        nu = "@" in cell
+        if n >= (20 if nu else 100):
+            f15 = st.get(cell + "/peak-area-dev>0.15", 0) / n
+            peak_area_info[cell] = [n, round(f15, 4)]
+            lim = PEAK_MASS_FRAC_15PCT_NU if nu else PEAK_MASS_FRAC_15PCT
+            if f15 > lim:
+                viol.append({"key": f"C13/{cell}/peak-area-distribution",
+                             "msg": f"{cell}: {f15:.1%} of {n} per-peak areas (gamma integrated over +-0.75 decade around tau_k) are more than 15 % off "
+                                    f"the exact distribution's (allowed {lim:.0%})",
+                             "witness": {"cell": cell, "peaks": n, "frac_gt_15pct": f15}})
+    for gk in ("mixed", "masked", "jitter"):
+        for m, lk in NNLS_CELLS:
+            c = f"tr-nnls/{m}/{lk}@{gk}"
+            if st.get(c + "/area-checked", 0) < 10 or st.get(c + "/peak-area-checked", 0) < 20:
+                inc.append(f"non-uniform cell '{c}': only {st.get(c + '/area-checked', 0)} areas / {st.get(c + '/peak-area-checked', 0)} per-peak areas decided")
+    if st.get("masked-datasets", 0) < 5:
+        inc.append("fewer than 5 spectra with a DataSet.set_mask mask were analysed")
     return {"viol": viol, "inconclusive": inc,
-            "info": {"nnls_maxiter_skipped": skipped, "tr_nnls_runs": runs,
+            "info": {"per_peak_area[cell -> (peaks, fraction > 15 % off)]": peak_area_info, "nnls_maxiter_skipped": skipped, "tr_nnls_runs": runs,
                      "automatic_lambda_twins_differing_by_more_than_1pct[info, not a verdict]": len(agg["aggs"]),
                      "worst_automatic_lambda_twins[info]": worst}}
